@@ -47,16 +47,23 @@ func NewTCPGroupCtl(portManager *ports.Manager) *TCPGroupCtl {
 func (tgc *TCPGroupCtl) Listen(proxyName string, group string, groupKey string,
 	addr string, port int,
 ) (l net.Listener, realPort int, err error) {
+	// Hold the controller lock until the join is complete, so that it cannot interleave
+	// with the last member leaving (which removes the group from the controller).
 	tgc.mu.Lock()
+	defer tgc.mu.Unlock()
 	tcpGroup, ok := tgc.groups[group]
 	if !ok {
 		tcpGroup = NewTCPGroup(tgc)
 		tgc.groups[group] = tcpGroup
 	}
-	tgc.mu.Unlock()
 
 	verifhook.At("server.group.tcp.afterLookup", group, proxyName)
-	return tcpGroup.Listen(proxyName, group, groupKey, addr, port)
+	l, realPort, err = tcpGroup.Listen(proxyName, group, groupKey, addr, port)
+	if err != nil && !ok {
+		// don't keep an empty group that was created only for this failed join
+		delete(tgc.groups, group)
+	}
+	return
 }
 
 // RemoveGroup remove TCPGroup from controller
@@ -167,6 +174,9 @@ func (tg *TCPGroup) Accept() <-chan net.Conn {
 // CloseListener remove the TCPGroupListener from the TCPGroup
 func (tg *TCPGroup) CloseListener(ln *TCPGroupListener) {
 	verifhook.At("server.group.tcp.closeListener.enter", ln.groupName)
+	// lock order: controller, then group (same as TCPGroupCtl.Listen)
+	tg.ctl.mu.Lock()
+	defer tg.ctl.mu.Unlock()
 	tg.mu.Lock()
 	defer tg.mu.Unlock()
 	for i, tmpLn := range tg.lns {
@@ -179,7 +189,7 @@ func (tg *TCPGroup) CloseListener(ln *TCPGroupListener) {
 		close(tg.acceptCh)
 		tg.tcpLn.Close()
 		tg.ctl.portManager.Release(tg.realPort)
-		tg.ctl.RemoveGroup(tg.group)
+		delete(tg.ctl.groups, tg.group)
 	}
 }
 
